@@ -31,7 +31,7 @@
 
   The code modelled is the **repaired** one (fixes/C08_border_origin.diff): the die-border exclusions compare
   with `xcoords[0]`, `xcoords[-1]`, `ycoords[0]`, `ycoords[-1]` instead of `0`, `int(Width)`, `int(Height)`.
-  `enforceBBOrig` keeps the original comparison for reference (used by the harness to recognise the defect).
+  `enforceBBOrig` keeps the original comparison for reference (not used by the theorems nor by the driver).
 -/
 namespace FV.RectSearch
 
